@@ -55,6 +55,8 @@ type HSpec struct {
 	Lat   time.Duration `json:"lat,omitempty"`
 	// pp
 	Allow []string `json:"allow,omitempty"`
+	// pp: the handler's timeout option (wait for the header)
+	PPTimeout time.Duration `json:"pp_timeout,omitempty"`
 	// recorder
 	Late   time.Duration `json:"late,omitempty"`
 	MaxBuf int           `json:"maxbuf,omitempty"`
@@ -178,7 +180,7 @@ func (b *Builder) Handler(hs *HSpec, sig string) layer4.NextHandler {
 		h.VerifSetLogger(b.E.Log)
 		return h
 	case "pp":
-		h := &l4proxyprotocol.Handler{Allow: hs.Allow}
+		h := &l4proxyprotocol.Handler{Allow: hs.Allow, Timeout: caddy.Duration(hs.PPTimeout)}
 		if err := h.Provision(b.E.Ctx); err != nil {
 			panic(err)
 		}
